@@ -27,7 +27,7 @@ TECHNIQUE = 'deterministic simulation of all five commands over the lattice of .
 LEVEL_TEXT = 'seeded exploration of volume layouts x .Trash states x commands; secure states are checked to be used so the check cannot pass vacuously'
 LEVEL_NOTE = 'trusted: model/bag.py top_state (spec rule: directory, not a symlink, sticky), snapshot function'
 
-STATES = ['sticky', 'nonsticky', 'link_sticky', 'link_nonsticky', 'file', 'dangling', 'absent']
+STATES = ['sticky', 'nonsticky', 'nonsticky_sgid', 'nonsticky_suid', 'link_sticky', 'link_nonsticky', 'file', 'dangling', 'absent']
 
 
 def gen(rng):
@@ -41,7 +41,7 @@ def gen(rng):
     k = 0
     for v in L['vols']:
         s = L['trash'][v]['top']
-        if s in ('sticky', 'nonsticky', 'link_sticky', 'link_nonsticky'):
+        if s in ('sticky', 'nonsticky', 'nonsticky_sgid', 'nonsticky_suid', 'link_sticky', 'link_nonsticky'):
             t = v + '/.Trash/%d' % uid
             for j in range(rng.randint(1, 2)):
                 k += 1
